@@ -46,6 +46,18 @@ fn main() {
     let nrec = records.len();
     sink.merge(struct_sweep(&run, &targets, &records, run.tier.pick(1, 2), &sfx, 48, &extra));
 
+    // hello messages whose random has a protocol-defined meaning, alone and as the second message of a record
+    let magic: Vec<vcommon::en::W> = cat::magic_hellos().into_iter().filter(|w| w.lens.first().map_or(false, |l| l.label == "hs_len")).collect();
+    let mut magic_recs = Vec::new();
+    for m in &magic {
+        magic_recs.push(cat::record(0x16, 0x0303, |w| {
+            w.append(m);
+        }));
+        magic_recs.push(cat::record(0x16, 0x0303, |w| {
+            w.append(&cat::hs(0, |_| {})).append(m).append(&cat::hs(14, |_| {}));
+        }));
+    }
+    sink.merge(struct_sweep(&run, &targets, &magic_recs, 0, &sfx, 48, &extra));
     for style in [1u8, 3, 4] {
         use vcommon::en::with_fill_style as wfs;
         sink.merge(struct_sweep(&run, &targets, &wfs(style, || cat::tls_records(2, false)), 0, &sfx, 48, &extra));
